@@ -106,6 +106,25 @@ def main():
             violations.append({"what": "two views on one internal directory: the second view recomputed a blob the first one stored"})
         if dds.load("/cfg/shared") != "cfg-value":
             violations.append({"what": "two views: load through view2 failed"})
+        # the same with both views alive at the same time (two long-lived processes / notebook kernels): the view created
+        # first sees what the other one stores afterwards
+        import dds._api as api_
+
+        for cache in (None, 2):
+            evals += 1
+            i2 = os.path.join(base, "shared_live_int_%s" % cache)
+            dds.set_store("local", internal_dir=i2, data_dir=os.path.join(base, "liveA_%s" % cache), cache_objects=cache)
+            view_a = api_._store_var
+            dds.set_store("local", internal_dir=i2, data_dir=os.path.join(base, "liveB_%s" % cache), cache_objects=cache)
+            view_b = api_._store_var
+            CALLS.clear()
+            api_._store_var = view_b
+            dds.keep("/cfg/live", fn)
+            n1 = len(CALLS)
+            api_._store_var = view_a
+            got = dds.keep("/cfg/live", fn)
+            if len(CALLS) != n1 or got != "cfg-value" or dds.load("/cfg/live") != "cfg-value":
+                violations.append({"what": "two live views on one internal directory (cache_objects=%r): the view created first recomputed (%d extra calls) / misread (%r) a blob the other view stored afterwards" % (cache, len(CALLS) - n1, got)})
         # internal directory and data directory on two different file systems (a rename across them is not possible)
         other_fs = None
         for cand in ("/dev/shm", "/run/shm", "/var/tmp"):
